@@ -814,6 +814,12 @@ def gen_long(rng, tier, scale=1):
         if d in around or d % 25 == 0:
             cases.append({"entry": "comb", "strategy": "tau", "delay": d, "param": _f(rng.choice([float(d), 2.0 * d, 300.0])),
                           "sig": {"kind": "impulse", "n": 2 * d + 2}})
+    # short delays, long runs (thousands of echoes: the outputs decay through the whole double range)
+    for d in (1, 2, 3, 5, 16):
+        for st, a in (("fb", 0.5), ("fb", -0.9375), ("fb", -1.0), ("ff", 0.25), ("tau", 7.0)):
+            for n in ((2500,) if quick else (2500, 20000)):
+                cases.append({"entry": "comb", "strategy": st, "delay": d, "param": _f(a),
+                              "sig": {"kind": "impulse" if (d + n) % 2 else "lcg", "n": n + d, "seed": d}})
     # one comb filter object, several signals, outputs alive together
     flavs = ["list", "tuple", "Stream", "gen", "iter"]
     delays = [1, 2, 3, 5, 8, 63, 64, 65, 128, 129] + ([] if quick else [255, 256, 257, 1024])
